@@ -87,6 +87,30 @@ CLAIMS = {
              "analysed under ansi, a rotating third (quick) / all (thorough) of the 28 installed dialects and the sqlparse analyzer; "
              "acceptance is decided by calling the sqlfluff parser directly; each observation is decided by Trace_Stmt.",
         note="trusted: TLC, sqlfluff as parser (acceptance), the renderer; SELECT INTO counted only where it creates a table (tsql, postgres, redshift, greenplum); column level across dialects is C02's sweep"),
+    "C07": dict(
+        design="5/C07",
+        technique="TLA+ model checking (TLC) of Stmt.tla (answer is a function of the program) + every spelling variant of TLC-enumerated programs analysed by the real code + TLC trace validation (Trace_Stmt); corpus statements rewritten at lexer-token level compared with their canonical result",
+        text="The abstract program has no layout: each program printed by TLC is rendered by a token-level renderer under spelling variants "
+             "(block/line comments and newlines at token boundaries, keyword and identifier case, quoting of lower-case identifiers, trailing "
+             "semicolons, separators, AS); a variant counts when the parser itself accepts it; each observation is decided by Trace_Stmt "
+             "against the program's ideal answer. Corpus statements (no abstract program) are rewritten at lexer-token boundaries and must "
+             "reproduce the canonical spelling's tables and named column pairs.",
+        note="trusted: TLC, sqlfluff as parser/lexer, the token renderer; the corpus part is a direct comparison of two real results"),
+    "C08": dict(
+        design="5/C08",
+        technique="TLA+ model checking (TLC) of Stmt.tla (ideal resolves by meaning: tbl / cteref events) + TLC-enumerated programs rendered under adversarial namings and analysed by the real code + TLC trace validation (Trace_Stmt)",
+        text="The ideal layer never looks at how a local name is spelled; programs printed by TLC are rendered under alias pools (plain, "
+             "adversarial = equal to other tables' bare names / schema / CTE / target / column, mixed case, quoted), fresh CTE names, table "
+             "aliases on/off, AS on/off, and each observation is decided by Trace_Stmt against the naming-independent answer.",
+        note="trusted: TLC, sqlfluff as parser, the renderer's validity rule for namings (exposed names pairwise distinct, CTE names fresh)"),
+    "C14": dict(
+        design="5/C14",
+        technique="TLA+ model checking (TLC) of Stmt.tla with the default-schema variable (fallback chain, DefaultEqualsQualified) + three-way replay (scoped override, environment variable before import, textual qualification) + TLC trace validation (Trace_Stmt with ds)",
+        text="Stmt.tla carries the configured default schema as a variable and proves that the report under default S equals the report of "
+             "the textually qualified program; each program printed by TLC is analysed unqualified under a scoped override, unqualified with "
+             "the environment variable set before the library is imported (own worker pool), and qualified as S.name with no default, for S "
+             "fresh and S already used as a qualifier, plus no default at all; every observation is decided by Trace_Stmt with ds = S.",
+        note="trusted: TLC, the renderer's qualify option; table level (column owners under a default schema belong to the column-level checks)"),
 }
 
 NOT_YET = "check not built yet in this round; planned as described in DESIGN.md section 5"
